@@ -32,6 +32,15 @@ def real_case(inp):
     ids = [e["id"] for e in net["rx"]]
     v, e, f = hypergraph_to_pr_inputs(H, {i: n for i, n in zip(ids, flow)})
     pr = PathwayRealizability().load_hypergraph_and_flow(v, e, f).build_petri_net_from_flow()
+    for call in inp.get("pre", []):       # earlier queries on the same object must not change the answer
+        if call == "konig":
+            pr.is_realizable_via_konig()
+        elif call == "scaled":
+            pr.is_scaled_realizable(k_max=2)
+        elif call == "borrow":
+            pr.is_borrow_realizable(max_borrow_each=1)
+        elif call == "real":
+            pr.is_realizable()
     ok, cert = pr.is_realizable()
     cert = cert or []
     return {"kind": "real", "net": net, "flow": flow, "ok": bool(ok), "cert": [ids.index(t) + 1 for t in cert]}
@@ -155,6 +164,12 @@ def run(ctx: core.Ctx) -> None:
     core.run_stage(ctx, S("realizability-exhaustive-unit-rx2", real_case, allflows, "total flow >= 2"))
     rnd = rand_flow_cases(ctx.rng, 600 if q else 15000) + planted_cases(ctx.rng, 400 if q else 8000)
     core.run_stage(ctx, S("realizability-random", real_case, rnd, "total flow >= 2"))
+    hist = []
+    for c in rnd[: (500 if q else 6000)]:
+        if len(c["net"]["sp"]) <= 5:
+            pre = [ctx.rng.choice(["konig", "scaled", "borrow", "real"]) for _ in range(ctx.rng.randint(1, 3))]
+            hist.append({"net": c["net"], "flow": c["flow"], "pre": pre})
+    core.run_stage(ctx, S("realizability-after-other-queries", real_case, hist, "total flow >= 2"))
     # design level: native exploration of the same extended nets (never negative, state equation, agreement lemma)
     import json, tempfile
     from pathlib import Path
